@@ -7,7 +7,7 @@
 //! Model ties: the loop logic of `emulate_frames` against the Lean loop model on a timing-exact toy
 //! machine; `read_exact`/`seek` of every asset implementation against the Lean asset model.
 mod drive;
-mod env;
+pub mod env;
 mod scn;
 mod small;
 
